@@ -252,6 +252,160 @@ def gen_pulser(rng):
     return case, s
 
 
+# ---- every noise trajectory: SequenceData tables == interpolation of THAT trajectory's own samples ----------------
+STALE = "trajectory-drives-stale"
+# one noise model per NoiseTrajectory field (pulser 1.9.1) in which ONLY that field varies between trajectories;
+# interaction_matrix varies with `register` and does not enter the drives.  An unknown field fails closed.
+FIELD_MODELS = {
+    "bad_atoms": dict(state_prep_error=0.4),
+    "doppler_detune": dict(temperature=50.0),
+    "amp_fluctuations": dict(amp_sigma=0.1),
+    "det_fluctuations": dict(detuning_sigma=0.5),
+    "det_phases": dict(detuning_hf_psd=(0.02, 0.015, 0.01, 0.005), detuning_hf_omegas=(10.0, 40.0, 90.0, 160.0)),
+    "register": dict(temperature=50.0, trap_depth=150.0, trap_waist=1.0, laser_waist=20.0, disable_doppler=True),
+    "interaction_matrix": None,  # covered by "register"
+    "dmm_det_fluctuation": dict(dmm_sigma=0.3),
+}
+
+
+def _multi_sequence():
+    import pulser
+
+    reg = pulser.Register({"q0": [0.0, 0.0], "q1": [8.0, 0.0], "q2": [16.0, 0.0], "q3": [24.0, 0.0]})
+    seq = pulser.Sequence(reg, pulser.MockDevice)
+    seq.declare_channel("ryd", "rydberg_global")
+    dmap = reg.define_detuning_map({"q0": 0.1, "q1": 0.2, "q2": 0.3, "q3": 0.4})
+    seq.config_detuning_map(dmap, "dmm_0")
+    seq.add(pulser.Pulse(pulser.BlackmanWaveform(40, 2.0), pulser.RampWaveform(40, -4.0, 6.0), 0.3), "ryd")
+    seq.add_dmm_detuning(pulser.RampWaveform(40, -2.0, -25.0), "dmm_0")
+    return seq
+
+
+def _field_repr(v):
+    try:
+        import torch
+        if hasattr(v, "as_tensor"):
+            v = v.as_tensor()
+        if isinstance(v, torch.Tensor):
+            return [float(a) for a in v.flatten()]
+        if hasattr(v, "qubits"):
+            return {str(k): [float(a) for a in torch.as_tensor(p).flatten()] for k, p in v.qubits.items()}
+    except Exception:
+        pass
+    if isinstance(v, dict):
+        return {str(k): _field_repr(a) for k, a in v.items()}
+    return repr(v)
+
+
+def multi_trajectory(field, dt, n_traj, seed):
+    """Returns (trajectory cases with their samples objects, SequenceData per trajectory, fields that vary)."""
+    import dataclasses
+    import warnings
+    import numpy as np
+    import torch
+    from pulser.backend.config import EmulationConfig
+    from pulser.noise_model import NoiseModel
+    from emu_base.pulser_adapter import PulserData
+
+    np.random.seed(seed)
+    torch.manual_seed(seed)
+    seq = _multi_sequence()
+    with warnings.catch_warnings():
+        warnings.simplefilter("ignore")
+        cfg = EmulationConfig(noise_model=NoiseModel(**FIELD_MODELS[field]), n_trajectories=n_traj,
+                              interaction_cutoff=0.0, default_evaluation_times=(0.5, 1.0))
+        data = PulserData(sequence=seq, config=cfg, dt=dt)
+        per_traj = []
+        for smp in data.hamiltonian.noisy_samples:
+            per_traj.extend([smp] * smp.reps)
+        emu = list(data.get_sequences())
+    varies = set()
+    reprs = [{f.name: _field_repr(getattr(t.trajectory, f.name)) for f in dataclasses.fields(t.trajectory)} for t in per_traj]
+    for name in reprs[0]:
+        if any(r[name] != reprs[0][name] for r in reprs[1:]):
+            varies.add(name)
+    out = []
+    for k, smp in enumerate(per_traj):
+        d = smp.samples.to_nested_dict(all_local=True, samples_type="tensor")["Local"]
+        basis = next(iter(d))
+        samples = {q: {kk: [float(x) for x in v[kk].real] for kk in ("amp", "det", "phase")} for q, v in d[basis].items()}
+        case = {"kind": "trajectory", "layout": "multi:" + field, "dt": dt, "trajectory": k,
+                "multi": {"field": field, "dt": dt, "n_traj": n_traj, "seed": seed},
+                "qids": list(data.qubit_ids), "samples": samples, "tt": [float(t) for t in data.target_times],
+                "max_duration": int(smp.samples.max_duration)}
+        out.append((case, smp.samples))
+    return out, emu, varies
+
+
+def trajectory_check(ctx, case, samples_obj, sd):
+    """SequenceData of trajectory k must be the drive tables of THAT trajectory's samples (bit for bit: same code)."""
+    import torch
+    from emu_base.pulser_adapter import _extract_omega_delta_phi
+
+    want = _extract_omega_delta_phi(samples_obj, tuple(case["qids"]), list(case["tt"]), all_register_atoms=True)
+    for name, got, w in zip(("omega", "delta", "phi"), (sd.omega, sd.delta, sd.phi), want):
+        if got.shape != w.shape or not torch.equal(got, w):
+            err = float((got - w).abs().max()) if got.shape == w.shape else float("inf")
+            ctx.violation(f"SequenceData.{name} of trajectory {case['trajectory']} (noise model varying only "
+                          f"`{case['multi']['field']}`, dt={case['dt']}) is not the interpolation of that trajectory's own "
+                          f"Pulser samples: max difference {err:.3g}",
+                          {"case": {k: v for k, v in case.items() if k != "samples"}, "finding_key": STALE,
+                           "multi": case["multi"], "trajectory": case["trajectory"], "table": name})
+            return False
+    return True
+
+
+def multi_search(ctx):
+    """All trajectories of multi-trajectory noise models, one model per NoiseTrajectory field."""
+    import dataclasses
+    from pulser._hamiltonian_data import NoiseTrajectory
+
+    fields = [f.name for f in dataclasses.fields(NoiseTrajectory)]
+    unknown = [f for f in fields if f not in FIELD_MODELS]
+    ctx.obligation("harness:every NoiseTrajectory field has a noise model in which only it varies", not unknown,
+                   f"fields without a model: {unknown}", kind="harness")
+    cases, objs, vary_ok, vary_detail, stats, not_varied = [], [], True, "", {}, {}
+    for field in fields:
+        if FIELD_MODELS.get(field) is None:
+            continue
+        for dt in ((10, 0.5) if not ctx.thorough() else (10, 0.5, 0.3, 2.5)):
+            for rep in range(ctx.n(1, 4)):
+                n_traj = ctx.rng.choice([3, 4])
+                seed = ctx.rng.randrange(2 ** 31)
+                try:
+                    trajs, emu, varies = multi_trajectory(field, dt, n_traj, seed)
+                except Exception as ex:
+                    vary_ok, vary_detail = False, f"{field}: {type(ex).__name__}: {ex}"
+                    continue
+                if len(trajs) != len(emu):
+                    ctx.violation(f"get_sequences yields {len(emu)} SequenceData for {len(trajs)} trajectories",
+                                  {"case": {"kind": "trajectory"}, "multi": {"field": field, "dt": dt, "n_traj": n_traj, "seed": seed},
+                                   "finding_key": "trajectory-count"})
+                    continue
+                # interaction_matrix is derived (register positions, bad atoms) and does not enter the drives
+                expected = {field, "interaction_matrix"}
+                # pulser 1.9.1 draws dmm_det_fluctuation once per HamiltonianData (equal in all trajectories) and SPAM may
+                # draw no bad atom in 3-4 shots: a field that does not vary cannot be stale; recorded, not an error
+                if field not in varies:
+                    not_varied[field] = not_varied.get(field, 0) + 1
+                    if field not in ("bad_atoms", "dmm_det_fluctuation"):
+                        vary_ok, vary_detail = False, f"noise model for `{field}` did not vary it (varies: {sorted(varies)})"
+                if varies - expected:
+                    vary_ok, vary_detail = False, f"noise model for `{field}` also varies {sorted(varies - expected)}"
+                ok = all([trajectory_check(ctx, c, o, sd) for (c, o), sd in zip(trajs, emu)])
+                stats[field] = stats.get(field, 0) + len(trajs)
+                # the Coq correspondence gets every trajectory on the coarse grid and the later ones on the fine grid
+                for k, (c, o) in enumerate(trajs):
+                    if dt == 10 or (rep == 0 and k >= 1 and dt == 0.5):
+                        cases.append(c)
+                        objs.append(o)
+    ctx.obligation("harness:each per-field noise model varies exactly its field between trajectories", vary_ok,
+                   vary_detail, kind="harness")
+    ctx.extra["trajectories_checked_per_field"] = stats
+    ctx.extra["runs_in_which_the_field_did_not_vary"] = not_varied
+    return cases, objs
+
+
 def corpus_cases():
     p = common.VERIF / "corpus" / "C22.json"
     return json.loads(p.read_text()) if p.exists() else []
@@ -349,6 +503,9 @@ def run(ctx):
         cases.append(c)
         objs.append(s)
     ctx.obligation("harness:real Pulser sequences could be built and sampled", pulser_ok, pulser_detail, kind="harness")
+    mc, mo = multi_search(ctx)   # all trajectories of multi-trajectory noise models (falsifier + more tie cases)
+    cases += mc
+    objs += mo
 
     impl = [impl_run(c, o) for c, o in zip(cases, objs)]
     for c, r in zip(cases, impl):
@@ -394,7 +551,10 @@ def run(ctx):
                 "atoms, all or a subset addressed; dt in {0.1,0.25,0.5,1,2.5,10,40}; extra evaluation times inside the "
                 "last ns), malformed ones (short signal, duration mismatch, 1 sample) and real Pulser sequences "
                 "(constant/ramp/Blackman/interpolated/composite waveforms; global, local, global+local, global+DMM; "
-                "amplitude/detuning noise) sampled by HamiltonianData; grids from _get_target_times; one PRNG; "
+                "amplitude/detuning noise) sampled by HamiltonianData; ALL trajectories (3-4) of PulserData.get_sequences "
+                "for one noise model per NoiseTrajectory field in which only that field varies (SPAM, doppler, "
+                "amp_sigma, detuning_sigma, detuning_hf, register+laser_waist, dmm_sigma), SequenceData tables compared "
+                "with the function applied to that trajectory's own samples; grids from _get_target_times; one PRNG; "
                 "non-trivial = returned with >= 2 steps; distinct by input hash")
     ctx.trusted_base += ["hand-written models coq/Model/DriveSamples.v and coq/Model/Pchip.v (validated bit-for-bit each run)",
                          "pulser's to_nested_dict / HamiltonianData produce the samples (inputs of the model)",
@@ -410,6 +570,13 @@ def run(ctx):
 
 def replay(ctx, path):
     rp = json.loads(open(path).read())
+    if "multi" in rp:
+        m = rp["multi"]
+        trajs, emu, varies = multi_trajectory(m["field"], m["dt"], m["n_traj"], m["seed"])
+        print("replay multi-trajectory:", m, "fields that vary:", sorted(varies))
+        for (c, o), sd in zip(trajs, emu):
+            print(" trajectory", c["trajectory"], "ok" if trajectory_check(ctx, c, o, sd) else "STALE/WRONG")
+        return
     c = rp["case"]
     r = impl_run(c)
     print("replay outcome:", r["outcome"], "columns:", len(r.get("om", [])), "atoms:", len(c["qids"]),
@@ -427,7 +594,11 @@ META = {
              "for non-negative samples the amplitude at every midpoint inside the sampled range IS the interpolation "
              "and is >= 0 by C20's shape preservation (the clamp only acts on extrapolated steps). The pre-fix "
              "variants (F-09, F-05) are still refuted in Proofs/DriveProofs.v. The PrimFloat instance is compared "
-             "bit-for-bit with the real function on synthetic and real Pulser samples, for both keyword values."),
+             "bit-for-bit with the real function on synthetic and real Pulser samples, for both keyword values. "
+             "Validated only (falsifier on the real code): for one noise model per NoiseTrajectory field of pulser in "
+             "which only that field varies, every SequenceData yielded by PulserData.get_sequences (3-4 trajectories) "
+             "equals the function applied to that trajectory's own samples (key trajectory-drives-stale); those "
+             "per-trajectory samples also enter the bit-exact correspondence."),
     "note": ("Trusted: Coq kernel+VM, stdlib real axioms, the hand-written models (validated by the bit-exact "
              "correspondence), pulser as the producer of samples. Exact arithmetic in theorems."),
 }
